@@ -8,7 +8,9 @@ A  TLC evaluates the laws on the reference over four exhaustive domains (NameUri
    encodings = NDN canonical order, prefix test = component-wise equality.  Vacuity: POSTCONDITION Witnesses.
 B  spec -> code: for every enumerated component / name TLC also computes (state variable `out`, read from
    -dump) every spelling and the wire form; each is given to Component.from_str / Name.from_str /
-   Name.normalize / Name.from_bytes / Name.to_bytes and must yield the spec's components.  The domain sorted
+   Name.normalize / Name.from_bytes / Name.to_bytes and must yield the spec's components; aliasing pass: after
+   each conversion the RETURNED list/components are mutated in place and the same input is converted again in
+   every direction - the answers must still be the spec's (pure functions) and the input unchanged.  The domain sorted
    by the reference order (pair / ord) is compared with Python's ordering of bytes(component) lists,
    concatenated encodings, equality and Name.is_prefix on all pairs.
 C  code -> spec: Name.to_str / to_canonical_uri / Component.to_str / to_canonical_uri / escape_str /
@@ -183,6 +185,83 @@ def replay_name(rec):
     yield None, None, None, n
 
 
+def _mutate_result(res, flip):
+    """what a caller may legitimately do with a list it got back: extend it, overwrite an element and
+    (only where the components are fresh bytearrays, flip=True) modify a component in place"""
+    res.append(b'\x08\x05alias')
+    if len(res) > 1:
+        if flip and isinstance(res[0], bytearray) and len(res[0]) > 0:
+            res[0][-1] ^= 0x55
+        res[0] = b'\x08\x01Z'
+    if flip:
+        for c in res:
+            if isinstance(c, bytearray) and len(c) > 2:
+                c[-1] ^= 0xFF
+
+
+def replay_alias(rec):
+    """History independence of the conversions (they are pure functions in the reference): convert an input,
+    mutate the RETURNED list / components in place, then convert the SAME input object again in every
+    direction; every answer must again be the spec's, and the input object must be unchanged.
+    (Components of a list input and memoryviews into a caller's buffer are documented shallow copies: those
+    are not modified, only the returned list is.)"""
+    Name, Component = _lib()
+    encs = [bytes(e) for e in rec['encs']]
+    wire = bytes(rec['wire'])
+    n = 0
+    texts = []
+    for f in rec['forms']:
+        if f['lead'] and not f['trail'] and f['k'] in ('canonU', 'short'):
+            t = txt(f['s'])
+            if t not in texts:
+                texts.append(t)
+    inputs = [('str', t, True) for t in texts]
+    inputs += [('bytes', wire, False), ('bytearray', bytearray(wire), False),
+               ('list-bytes', list(encs), False), ('list-bytearray', [bytearray(e) for e in encs], False)]
+    if 'canonU' in rec['parts']:
+        inputs.append(('list-str', [txt(x) for x in rec['parts']['canonU']], True))
+    for kind, val, flip in inputs:
+        snap = [bytes(x) if not isinstance(x, str) else x for x in val] if isinstance(val, list) else (
+            bytes(val) if not isinstance(val, str) else val)
+        convs = [('Name.normalize', Name.normalize)]
+        if kind == 'str':
+            convs.append(('Name.from_str', Name.from_str))
+        if kind in ('bytes', 'bytearray'):
+            convs.append(('Name.from_bytes', Name.from_bytes))
+        convs.append(('Name.from_bytes(Name.to_bytes)', lambda v: Name.from_bytes(Name.to_bytes(v))))
+        for fn, conv in convs:
+            got, ex = _try(conv, val)
+            n += 1
+            if ex or blist(got) != encs:
+                yield fn, 'aliasing:' + kind, ex or 'wrong-name-first-call', '%s(%s %r) -> %r, spec %r' % (fn, kind, val, ex or blist(got), encs)
+                continue
+            _, ex = _try(_mutate_result, got, flip and fn != 'Name.from_bytes(Name.to_bytes)')
+            if ex:      # e.g. an immutable result: nothing to alias
+                continue
+            checks = [(fn, conv, lambda r: blist(r) == encs),
+                      ('Name.normalize', Name.normalize, lambda r: blist(r) == encs),
+                      ('Name.to_bytes', Name.to_bytes, lambda r: bytes(r) == wire),
+                      ('Name.is_prefix(x, spec name)', lambda v: Name.is_prefix(v, list(encs)), lambda r: r is True),
+                      ('Name.is_prefix(spec name, x)', lambda v: Name.is_prefix(list(encs), v), lambda r: r is True),
+                      ('Name.is_prefix(x, x + 1)', lambda v: Name.is_prefix(v, list(encs) + [b'\x08\x01q']), lambda r: r is True),
+                      ('Name.is_prefix(x + 1, x)', lambda v: Name.is_prefix(list(encs) + [b'\x08\x01q'], v), lambda r: r is False)]
+            for fn2, call, ok in checks:
+                got2, ex2 = _try(call, val)
+                n += 1
+                if ex2 or not ok(got2):
+                    shown = ex2 or (blist(got2) if isinstance(got2, list) else got2)
+                    yield fn2, 'aliasing:' + kind, ex2 or 'depends-on-earlier-call', (
+                        'after %s(%s %r) and in-place mutation of the returned list: %s -> %r, spec name %r' % (
+                            fn, kind, val, fn2, shown, encs))
+            now = [bytes(x) if not isinstance(x, str) else x for x in val] if isinstance(val, list) else (
+                bytes(val) if not isinstance(val, str) else val)
+            n += 1
+            if now != snap:
+                yield fn, 'aliasing:' + kind, 'input-modified', '%s modified its %s input: %r -> %r' % (fn, kind, snap, now)
+                break
+    yield None, None, None, n
+
+
 def _name_inputs(Name, Component, jname, how):
     """the same abstract name in one of three accepted input forms"""
     comps = [bytes(Component.from_bytes(bytes(c['v']), c['t'])) for c in jname]
@@ -247,6 +326,25 @@ def record_name(jname):
             'wire': list(Name.to_bytes(comps))}
 
 
+def record_name_aliased(jname):
+    """same projection as record_name, but every output is computed from the URI STRING of the name after a
+    caller normalised that string and mutated the returned list in place (conversions must be history-free)"""
+    Name, Component = _lib()
+    comps = [Component.from_bytes(bytes(c['v']), c['t']) for c in jname]
+    uri = Name.to_canonical_uri(comps)
+    for conv in (Name.normalize, Name.from_str):
+        got = conv(uri)
+        _mutate_result(got, True)
+    again = Name.normalize(uri)
+    if len(again) != len(jname):          # cstr/ccanon are per component of n: report through the name-level clauses
+        again = comps
+    return {'k': 'name', 'alias': True, 'n': jname,
+            'to_str': codes(Name.to_str(uri)), 'canon': codes(Name.to_canonical_uri(uri)),
+            'cstr': [codes(Component.to_str(c)) for c in again],
+            'ccanon': [codes(Component.to_canonical_uri(c)) for c in again],
+            'wire': list(Name.to_bytes(uri))}
+
+
 def record_esc(s):
     Name, Component = _lib()
     esc = Component.escape_str(s)
@@ -300,7 +398,8 @@ def safe(ctx, recorder, arg, slim):
         for fr in traceback.extract_tb(e.__traceback__):
             if '/ndn/' in fr.filename:
                 fn = '%s.%s' % (os.path.basename(fr.filename)[:-3], fr.name)
-        cls = 'noncanonical-typed-number' if slim.get('k') == 'name' and odd_number(slim['n']) else 'general'
+        cls = ('after-caller-mutation' if slim.get('alias') else
+               'noncanonical-typed-number' if slim.get('k') == 'name' and odd_number(slim['n']) else 'general')
         ctx.violation('C09/%s/%s/raises-%s' % (fn, cls, type(e).__name__),
                       'C: %s raised %s: %s while printing/comparing %s' % (fn, type(e).__name__, e, json.dumps(slim)[:600]),
                       {'kind': 'judge', 'clause': 'raises', 'input': slim})
@@ -446,6 +545,8 @@ FN_OF_CLAUSE = {'to_str': 'Name.to_str', 'canon': 'Name.to_canonical_uri', 'cano
 
 
 def input_class(rec):
+    if rec.get('alias'):
+        return 'after-caller-mutation'
     if rec['k'] == 'name':
         return 'noncanonical-typed-number' if odd_number(rec['n']) else 'general'
     return 'general'
@@ -465,7 +566,7 @@ def report_rejected(ctx, recs, rejected, stage):
         rec = recs[i]
         for cl in rejected[i]:
             sig = 'C09/%s/%s/%s' % (FN_OF_CLAUSE.get(cl, cl), input_class(rec), cl)
-            slim = {k: rec[k] for k in ('k', 'n', 'raw', 'names', 'comps') if k in rec}
+            slim = {k: rec[k] for k in ('k', 'alias', 'n', 'raw', 'names', 'comps') if k in rec}
             ctx.violation(sig, '%s: reference rejects clause %s for %s' % (stage, cl, describe(rec)),
                           {'kind': 'judge', 'clause': cl, 'input': slim})
 
@@ -514,6 +615,9 @@ def _run(ctx, pool, t0, nr, nq):
         for _ in range(ctx.pick(300, 3000)):
             n = rand_name(rng, allow_odd=True)
             rnd.append(safe(ctx, record_name, n, {'k': 'name', 'n': n}))
+        for _ in range(ctx.pick(300, 3000)):
+            n = rand_name(rng, allow_odd=True)
+            rnd.append(safe(ctx, record_name_aliased, n, {'k': 'name', 'alias': True, 'n': n}))
         for _ in range(ctx.pick(1200, 12000)):
             t = rand_text(rng)
             rnd.append(safe(ctx, record_esc, t, {'k': 'esc', 'raw': codes(t)}))
@@ -603,6 +707,12 @@ def _run(ctx, pool, t0, nr, nq):
                     continue
                 ctx.violation('C09/%s/%s/%s' % (fn, style, obs), 'B name: ' + detail,
                               {'kind': 'B-name', 'rec': rec, 'fn': fn, 'style': style})
+            for fn, style, obs, detail in guarded(ctx, 'B-alias', lambda r: list(replay_alias(r)), rec) or ():
+                if fn is None:
+                    ctx.evaluations += detail
+                    continue
+                ctx.violation('C09/%s/%s/%s' % (fn, style, obs), 'B alias: ' + detail,
+                              {'kind': 'B-alias', 'rec': rec, 'fn': fn, 'style': style})
             if any(c['t'] != 8 or not c['v'] for c in rec['n']):
                 ctx.nt(['n', rec['n']])
             if nn == 500:
@@ -631,7 +741,7 @@ def replay(ctx, path):
         inp = obj['input']
         try:
             if inp['k'] == 'name':
-                rec = record_name(inp['n'])
+                rec = record_name_aliased(inp['n']) if inp.get('alias') else record_name(inp['n'])
             elif inp['k'] == 'esc':
                 rec = record_esc(txt(inp['raw']))
             elif inp['k'] == 'pairs':
@@ -649,6 +759,8 @@ def replay(ctx, path):
         bad = [x for x in replay_comp(obj['rec']) if x[0]]
     elif kind == 'B-name':
         bad = [x for x in replay_name(obj['rec']) if x[0]]
+    elif kind == 'B-alias':
+        bad = [x for x in replay_alias(obj['rec']) if x[0]]
     else:
         print(json.dumps(obj, indent=1)[:4000])
         return 0
